@@ -245,6 +245,20 @@ theorem blurs_equal_convolution_odd (img : Arr ℝ) (m n : ℕ) (hm : img.s0 = m
 
 example : ∃ m n : ℕ, m % 2 = 1 ∧ n % 2 = 1 ∧ m ≠ n := ⟨3, 5, rfl, rfl, by norm_num⟩
 
+/-- **the blur does not depend on the size of the physical unit.** Expressing the extent and the pixel scale in any other unit
+(both multiplied by `k ≠ 0`: metres, nanometres, radians, milli-arcseconds) gives exactly the same output — in particular a
+multi-pixel jitter given in nano-scale units is not "close to zero". -/
+theorem blur_unit_invariant (img : Arr ℝ) (extent ang ps os k : ℝ) (hk : k ≠ 0) :
+    jitter ℂ img (k * extent) (k * ps) os = jitter ℂ img extent ps os ∧
+    smear ℂ img (k * extent) ang (k * ps) os = smear ℂ img extent ang ps os := by
+  constructor
+  · have hker : jitterKernel (R := ℝ) img.s0 img.s1 (k * extent) (k * ps) os = jitterKernel img.s0 img.s1 extent ps os := by
+      unfold jitterKernel; congr 1; funext i j; simp only [Gen.bwJitterKernel, mul_div_mul_left _ _ hk]
+    rw [jitter_def, jitter_def, hker]
+  · have hker : smearKernel (R := ℝ) img.s0 img.s1 (k * extent) ang (k * ps) os = smearKernel img.s0 img.s1 extent ang ps os := by
+      unfold smearKernel; congr 1; funext i j; simp only [Gen.bwSmearKernel, mul_div_mul_left _ _ hk]
+    rw [smear_def, smear_def, hker]
+
 /-- only `extent / pixelscale · oversample` enters: an extent in physical units with a pixel scale and an oversampling
 factor is the same blur as that extent expressed in samples -/
 theorem physical_units_equivalent (img : Arr ℝ) (extent ang ps os : ℝ) :
